@@ -122,6 +122,10 @@ pub(super) mod verif_export {
                         assert!(false, "escaped output is well formed");
                     }
                     Some((b, c)) => {
+                        assert!(!forbidden(s.buf[pos]), "no verbatim 0x0a/0x0d/0x1a in the output");
+                        if c == 2 {
+                            assert!(!forbidden(s.buf[pos + 1]), "no verbatim 0x0a/0x0d/0x1a in the output");
+                        }
                         g[n] = b;
                         n += 1;
                         pos += c;
@@ -143,13 +147,6 @@ pub(super) mod verif_export {
         }
         assert!(val == x as u128, "the groups denote x");
         assert!(n == 1 || (g[0] >> 1) != 0, "shortest code (no leading zero group)");
-        let mut i = 0;
-        while i < 20 {
-            if i < s.len {
-                assert!(!forbidden(s.buf[i]), "no verbatim 0x0a/0x0d/0x1a in the output");
-            }
-            i += 1;
-        }
         kani::cover!(n == 10, "full-width code reachable");
         kani::cover!(n == 1 && s.len == 2, "escaped single byte reachable (0, 5, 13)");
         kani::cover!(s.len > n + 3, "several escapes in one code reachable");
